@@ -6,7 +6,7 @@ sys.path.insert(0, os.path.join(ROOT, "tools"))
 from proptable import PROPS, ENGINES, NOT_APPLICABLE
 
 props = [json.loads(l)["id"] for l in open(os.path.join(ROOT, "properties.jsonl"))]
-hook_commits = ["1a85067", "d3a40f5", "94274d0"]
+hook_commits = ["1a85067", "d3a40f5", "94274d0", "3b8f29e"]
 m = {
     "version": 1,
     "setup_cmd": "./check --setup",
